@@ -1,6 +1,15 @@
-/* C18 correspondence harness: flatcc_refmap on operation sequences. Keys are integers used as addresses. */
+/* C18 / C13 correspondence harness: flatcc_refmap on operation sequences. Keys are integers used as addresses.
+ * An operation prefixed with X runs with an allocator that refuses every request (refmap.c is compiled with
+ * FLATCC_CALLOC = h_calloc, FLATCC_FREE = h_free and NDEBUG: the out-of-memory path asserts otherwise). */
 #include "hcommon.h"
 #include "flatcc/flatcc_refmap.h"
+#include "h_allocs.h"
+
+static int refuse; static long live, refused;
+void *h_calloc(size_t nm, size_t n) { void *p; if (refuse) { ++refused; return 0; } p = calloc(nm, n); if (p) ++live; return p; }
+void *h_malloc(size_t n) { return h_calloc(1, n); }
+void *h_realloc(void *p, size_t n) { if (refuse) { ++refused; return 0; } if (!p) ++live; return realloc(p, n); }
+void h_free(void *p) { if (p) --live; free(p); }
 
 int main(void)
 {
@@ -9,23 +18,29 @@ int main(void)
         int n = h_split(tok, 4); char *p, *q; flatcc_refmap_t m; int first = 1;
         if (n < 2 || strcmp(tok[0], "refmap")) { printf("bad-op\n"); continue; }
         flatcc_refmap_init(&m);
+        live = 0;
         p = tok[1];
         if (!strcmp(p, "_")) p = (char *)"";
         while (*p) {
             long long r = 0;
             q = strchr(p, ','); if (q) *q = 0;
+            refuse = 0;
+            if (*p == 'X') { refuse = 1; ++p; }
             if (*p == 'i') { char *c = strchr(p, ':'); unsigned long long k = strtoull(p + 1, 0, 10); long ref = strtol(c + 1, 0, 10);
                 r = flatcc_refmap_insert(&m, (const void *)(uintptr_t)k, (flatcc_refmap_ref_t)ref); }
             else if (*p == 'f') r = flatcc_refmap_find(&m, (const void *)(uintptr_t)strtoull(p + 1, 0, 10));
             else if (*p == 'r') r = flatcc_refmap_resize(&m, (size_t)strtoull(p + 1, 0, 10));
             else if (*p == 'R') flatcc_refmap_reset(&m);
             else if (*p == 'C') flatcc_refmap_clear(&m);
+            refuse = 0;
             printf(first ? "%lld" : ",%lld", r); first = 0;
             if (!q) break;
             p = q + 1;
         }
-        printf(" b%zu c%zu inv=true spec=true\n", m.buckets, m.count);
+        printf(" b%zu c%zu inv=true spec=true", m.buckets, m.count);
         flatcc_refmap_clear(&m);
+        /* clear releases everything the map obtained from the allocator */
+        printf(live ? " LEAK%ld\n" : "\n", live);
     }
     return 0;
 }
